@@ -109,4 +109,51 @@ theorem logDifference_eq (EA HA : List Entry) (l : Log) :
     simp only [this, Bool.false_eq_true, if_false, h0]
     rw [diffLoop_eq EA HA l.entries l.id _ _ [] [] [] (fun _ => rfl)]
 
+/-! ### The verification of the candidates -/
+
+/-- **the verification loop of `Join`, translated**: every candidate passes the access controller and the signature
+    check (whatever the order of the checks inside a goroutine) -/
+theorem joinVerify_eq (canAppend verify : Entry → Bool) (items : List Entry) :
+    Generated.Go.joinVerify canAppend verify items = items.all (fun e => canAppend e && verify e) := by
+  unfold Generated.Go.joinVerify
+  first
+    | rfl
+    | (congr 1; funext e; cases canAppend e <;> cases verify e <;> rfl)
+
+/-- … which is exactly when the model's `join` does not fail: **all-or-nothing** (C06) — with the translated
+    `difference` as the candidates -/
+theorem join_err_iff_verify (l : Log) (otherE otherH : List Entry) (size : Int) (canAppend verify : Entry → Bool) :
+    join l l.id otherE otherH size (fun e => canAppend e && verify e) = .err ↔
+      Generated.Go.joinVerify canAppend verify (difference otherE otherH l) = false := by
+  rw [joinVerify_eq]
+  unfold join
+  simp only [ne_eq, not_true_eq_false, if_false]
+  cases hany : (difference otherE otherH l).any (fun e => !(canAppend e && verify e)) with
+  | true =>
+    simp only [if_true, true_iff]
+    obtain ⟨x, hx, hb⟩ := List.any_eq_true.mp hany
+    cases hall : (difference otherE otherH l).all (fun e => canAppend e && verify e) with
+    | false => rfl
+    | true =>
+      have := List.all_eq_true.mp hall x hx
+      rw [this] at hb
+      cases hb
+  | false =>
+    simp only [Bool.false_eq_true, if_false]
+    constructor
+    · intro h; cases h
+    · intro hall
+      exfalso
+      have hne : ¬ ((difference otherE otherH l).all (fun e => canAppend e && verify e) = true) := by rw [hall]; simp
+      apply hne
+      apply List.all_eq_true.mpr
+      intro x hx
+      cases hv : (canAppend x && verify x) with
+      | true => rfl
+      | false =>
+        have : (difference otherE otherH l).any (fun e => !(canAppend e && verify e)) = true :=
+          List.any_eq_true.mpr ⟨x, hx, by rw [hv]; rfl⟩
+        rw [this] at hany
+        cases hany
+
 end Model.SlicesGen
